@@ -32,6 +32,9 @@ Definition tenant_eqb (a b : tenant) : bool :=
    outside the 160-bit address space (no key, no collision: trusted). *)
 Definition treasury (tid : Z) : Z := two160 + tid.
 Definition sbt_asset (tid : Z) : bytes := [0; tid].
+(* the total supply of a tenant's soul-bound token is kept as the balance of a pseudo account:
+   the ERC-20 _mint does a checked `totalSupply += amount` and reverts above 2^256-1 *)
+Definition sbt_supply : Z := -1.
 
 Definition ledger := list (Z * bytes * Z).
 Fixpoint bal_get (l : ledger) (a : Z) (d : bytes) : Z :=
@@ -368,7 +371,9 @@ Definition pay_one (method tid : Z) (denom : bytes) (l : ledger) (fault : bool) 
     if amt =? 0 then Some l
     else if bal_get l (treasury tid) denom <? amt then None
     else Some (bal_add (bal_add l (treasury tid) denom (- amt)) addr denom amt)
-  else if method =? 1 then Some (bal_add l addr (sbt_asset tid) amt)
+  else if method =? 1 then
+    if two256 <=? bal_get l sbt_supply (sbt_asset tid) + amt then None
+    else Some (bal_add (bal_add l addr (sbt_asset tid) amt) sbt_supply (sbt_asset tid) amt)
   else None.
 
 (* pays all recipients of one record on a branch; returns the remaining fault plan as well *)
